@@ -13,6 +13,15 @@ CHECKS = {
  'C19': dict(level='proof', ref='§6 C19', technique='Lean 4 theorems on exact-rational format_float model + string-equal correspondence',
    text='Lean theorems for every finite double: the number denoted by the printed field is within 5e-7 relative (|f|>=1, and exponent format), 5e-7 absolute (0.1<=|f|<1, i.e. 5e-6 relative), <1e-6 absolute (fixed-point fields below 0.1) of the value; zero prints as 0. Model tied string-for-string to util.format_float; printed source blocks are read back against the in-memory values. Report row structure (rows per pulse etc.) is tied under C09/C12/C17, not here.',
    note=TB + "CPython '%f'/'%e' correct rounding is modelled, not verified; the reader used for `fmtVal` vs text is executed per case, not proved."),
+ 'C12': dict(level='proof', ref='§6 C12', technique='Lean 4 induction over the object fold (Topo.build) + exact topology correspondence',
+   text='Lean theorems for every object list: pulse count = sum(segments-1) + grounded ends + attaching ends (= sum over junctions of k-1), gap-free numbering with consecutive per-object blocks, ownership, junction/ground pulse shape, joining rule (attach iff an earlier end coincides or lies within tolerance), dup-error branch. Model tied to compute_connections by exact comparison of pulse table, per-object pulse lists, end_segs, ground flags on random wire graphs incl. tolerance-scale perturbations.',
+   note=TB + 'segment end points are upstream data (C13); np.linalg.norm modelled as sqrt(x^2+y^2+z^2); global "joined iff within tolerance" needs a separated point set (only the local lookup rule is a theorem).'),
+ 'C09': dict(level='proof', ref='§6 C09', technique='Lean 4 invariant proof (junction structure) + Kirchhoff algebra over any commutative ring + exact report correspondence',
+   text='Lean theorems: every registering end of every accepted antenna is a NodeOK junction (C09_structure); Kirchhoff holds for every current vector with full sums (C09_kcl) and, for the code as it is (first-end junction line = last term only), on the junction class where that changes nothing (C09_kcl_code_partial); the defect is a kernel-checked witness (C09_defect_witness); free ends print E. Tied by exact comparison of conn lists and of the printed CURRENT DATA block for random integer currents. The defect class is a known finding; every other Kirchhoff failure on the printed report is a violation.',
+   note=TB + 'known finding end1-junction-line-keeps-last-term (known_findings.json): the property is violated on the unchanged tree for that class; the check prints KNOWN-FINDING and still evaluates Kirchhoff exactly on every generated report.'),
+ 'C17': dict(level='proof', ref='§6 C17', technique='Lean 4 theorems on addressing functions + exhaustive query correspondence per generated antenna',
+   text='Lean theorems: absolute number k resolves to pulse k; (k,t) resolves to row k of the block of the object tagged t; rejections; all-of-antenna attaches 0..N-1 exactly once (from the numbering theorem), all-of-object attaches its block without duplicates; junction pulse is owned by the later object; explicit tags kept, automatic tags after the maximum, processing order is a sorted rearrangement. Tied by comparing tags, order, every valid and several invalid queries through register_source and register_load, geometry table blocks and listings.',
+   note=TB + 'generated structures are wires (arcs/helices share the Geobj pulse lists); main() option parsing of --excitation-pulse / --attach-load is tied under C15/C20.'),
 }
 NOT_YET = {}
 
